@@ -10,7 +10,7 @@ const { norm } = require('../oracles/erase')
 
 async function build (tier) {
   // quick tier: in family B a second deviation is only taken as (statement ctx x expression ctx) pair
-  const r = F.all(tier, { families: ['A', 'B', 'C', 'G', 'M', 'S', 'P', 'T', 'H', 'Q', 'R', 'N', 'L'], B: tier === 'thorough' ? {} : { pairs: 'ctx-only', ops: F.REP_OPS.slice(0, 6) }, H: { L: 3 }, C: tier === 'thorough' ? {} : { noDepth3: true }, R: tier === 'thorough' ? {} : { rhs: ['b', 'f()', 'q => q'] }, S: tier === 'thorough' ? {} : { L: 2 } })
+  const r = F.all(tier, { families: ['A', 'B', 'C', 'G', 'M', 'S', 'P', 'T', 'H', 'Q', 'R', 'N', 'L', 'K'], B: tier === 'thorough' ? {} : { pairs: 'ctx-only', ops: F.REP_OPS.slice(0, 6) }, H: { L: 3 }, C: tier === 'thorough' ? {} : { noDepth3: true }, R: tier === 'thorough' ? {} : { rhs: ['b', 'f()', 'q => q'] }, S: tier === 'thorough' ? {} : { L: 2 } })
   return {
     leaves: r.leaves,
     stats: r.stats,
